@@ -22,7 +22,9 @@ RULE = ("W-TOK token sequences (quick: V_full<=2 with/without preamble, V_small<
         "thorough: V_full<=3, V_small<=5); W-BYTES byte mutants of generated valid scripts "
         "(flip/insert/delete/replace from a hostile byte set, truncation at every offset, "
         "splices), each also as str and through parse_file for a sample; identifiers equal "
-        "to every global name of sievelib.commands found at run time; W-SCALE doubling "
+        "to every global name of sievelib.commands found at run time; W-LONG (one dimension "
+        "of an ordinary script at 255..259, 1023..1025, 4095..4097, 65535/6 items or octets, "
+        "numbers of 9..20000 digits) through parse(bytes), parse(str) and parse_file; W-SCALE doubling "
         "families. Non-trivial = non-empty input; distinct = distinct input byte strings "
         "(plus distinct (family,size) for scaling).")
 ASSUMPTIONS = [
@@ -34,9 +36,10 @@ ASSUMPTIONS = [
 ]
 FLOORS = {
     "quick": {"monitor:parse.verdict_is_exactly_bool": 200000, "scale:families": 20,
-              "bytes:mutants": 100000, "via:str": 1000, "via:file": 200},
+              "bytes:mutants": 100000, "via:str": 1000, "via:file": 200, "long:cases": 400},
     "thorough": {"monitor:parse.verdict_is_exactly_bool": 3000000, "scale:families": 20,
-                 "bytes:mutants": 2000000, "via:str": 10000, "via:file": 1000},
+                 "bytes:mutants": 2000000, "via:str": 10000, "via:file": 1000,
+                 "long:cases": 400},
 }
 SHARD_TIMEOUT = {"quick": 600, "thorough": 3000}
 
@@ -67,6 +70,7 @@ def plan(tier, seed):
     for i, (s, e) in enumerate(split(ntrunc, 16)):
         shards.append({"w": "trunc", "n": e - s, "rs": seed * 7919 + i})
     shards.append({"w": "names", "rs": seed})
+    shards += pwork.plan_long(tier, seed)
     if tier == "thorough":
         for i in range(16):
             shards.append({"w": "atheris", "seconds": 60, "rs": seed * 131 + i})
@@ -146,6 +150,8 @@ def _run_shard(tier, shard, res: Result):
             n += 1
             if n % 50021 == 1:
                 res.sample({"workload": "tok", "input": data, "outcome": str(o.verdict())}, 2)
+    elif w == "long":
+        run_long(shard, res)
     elif w == "bytes":
         run_bytes(shard, res)
     elif w == "trunc":
@@ -223,6 +229,25 @@ def run_bytes(shard, res):
                 f.write(content)
             observe(content, res, "file-special", "file", tmp.name)
             res.case(b"file:" + content)
+    finally:
+        os.unlink(tmp.name)
+
+
+def run_long(shard, res):
+    """W-LONG: one dimension at a numeric boundary, through all three entry points."""
+    tmp = tempfile.NamedTemporaryFile(prefix="rv-c02-", suffix=".sieve", delete=False)
+    tmp.close()
+    try:
+        for label, data, info in pwork.cases(shard):
+            for via in ("bytes", "str", "file"):
+                if via == "file":
+                    with open(tmp.name, "wb") as f:
+                        f.write(data)
+                o = observe(data, res, "long:" + info["family"], via, tmp.name)
+            res.case(data)
+            res.count("long:cases")
+            res.observe("long:families", info["family"])
+            res.observe("long:sizes", str(info["n"]))
     finally:
         os.unlink(tmp.name)
 
